@@ -15,6 +15,7 @@ import EvalexprVerif.Proofs.AgreeToken
 import EvalexprVerif.Proofs.LexRoundtrip
 import EvalexprVerif.Proofs.ParseLoose
 import EvalexprVerif.Proofs.LexExt
+import EvalexprVerif.Proofs.AgreeFnTokensToTree
 
 namespace Evalexpr.Spec.C02
 open Evalexpr Evalexpr.Spec
@@ -56,6 +57,14 @@ theorem C02_call_left_of_assign_chain :
 theorem C02_parse (e : Expr) :
     tokensToOperatorTree (render e) = .ok ⟨.rootNode, [toTree e]⟩ :=
   Evalexpr.Spec.C02_parse e
+
+/-- **C02 about the code as translated on this run**: `Gen.tokens_to_operator_tree` is the body of
+`tokens_to_operator_tree` (src/tree/mod.rs) rendered by `translate_fn.py` — its `while let` loop over the peekable token
+iterator, the calls of the rendered `insert_back_prioritized` / `collapse_*`, the rendered operator tables — with loops as
+partial fixpoints (`none` = divergence). On the rendering of EVERY expression AST it terminates and returns the reference tree. -/
+theorem C02_parse_generated (e : Expr) :
+    Gen.tokens_to_operator_tree (render e) = some (.ok ⟨.rootNode, [toTree e]⟩) := by
+  rw [AgreeFn.fn_tokens_to_operator_tree_agree, C02_parse e]
 
 theorem stripRoots_wrapTree (b : Bool) (n : Node) : stripRoots (wrapTree b n) = stripRoots n := by
   cases b
